@@ -45,6 +45,7 @@ class Harness:
     symbolic_vars: str = ""  # human description of the symbolic variables and their domains
     xcheck: int = -1  # per path: how many of z3's unsat verdicts on assertions are re-decided by cvc5 (-1: policy)
     xcheck_every: int = 1  # ... on one path in `xcheck_every` (chosen by a hash of the decision prefix)
+    budget: float = 0.0  # wall seconds this harness may use beyond the tier's default per-harness budget
 
 
 _REG: dict[str, Harness] = {}
@@ -373,7 +374,8 @@ def run_check(prop: str, tier: str, harness_filter=None, workers=None) -> int:
     cap = float(os.environ.get("VERIF_MAX_SECONDS", 0) or (300 if tier == "thorough" else 0))
     for h in hs:
         if cap:
-            h.max_seconds = min(h.max_seconds, cap)
+            # (a harness measured to close within a larger budget may ask for it: Harness.budget)
+            h.max_seconds = min(h.max_seconds, max(cap, h.budget))
     for h in hs:
         # second-solver policy: kernels re-decide (up to 8 per path) every unsat verdict with cvc5; unit
         # harnesses re-decide 2 verdicts on a deterministic sample of paths (1/32 quick, 1/4 thorough)
